@@ -2,7 +2,9 @@ package verifh
 
 import (
 	"errors"
+	"fmt"
 	"io"
+	"math/rand"
 	"sync"
 )
 
@@ -73,4 +75,80 @@ func (b *C01BodyReader) FirstBufLen() int {
 		return b.BufLens[0]
 	}
 	return 0
+}
+
+// ---------------------------------------------------------------- the ONE generator of reader behaviours
+//
+// Every C01 body lane (h1body, h2body, h3body) draws its body reader from C01GenReaderScript and its
+// declared length from C01GenDeclared, so that a reader behaviour added here reaches all three
+// protocol writers. The alphabet is exactly the Lean `Reader` script type
+// (Req/H2/BodyWrite.lean): the bytes (gen.<n>.<a>.<b>), the sizes of the successive reads
+// (0 = a (0, nil) read, 1, small, the lane's buffer boundaries ±1, larger than any buffer), and the
+// ending: "eof" (0, io.EOF) after the last bytes, "eofl" the last bytes TOGETHER with io.EOF, "err"
+// (0, err) after the last bytes, "errl" the last bytes together with a non-EOF error.
+// Over-long / under-long readers are this script combined with a declared length that differs from
+// n (C01GenDeclared: absent / exact / the reader yields fewer / the reader yields more).
+
+type C01ReaderScript struct {
+	N, Ga, Gb int
+	Sizes     []int
+	Ending    string
+}
+
+// C01Endings is the ending alphabet (weights: honest endings are more frequent).
+var C01Endings = []string{"eof", "eof", "eof", "eofl", "eofl", "err", "errl"}
+
+// C01GenReaderScript: bodySizes = the lane's boundary sizes, maxRandom = bound of the random
+// sizes (a third of the cases), readSizes = the lane's read-size boundaries (0, 1 and 7 are always
+// in the alphabet).
+func C01GenReaderScript(r *rand.Rand, bodySizes []int, maxRandom int, readSizes []int) C01ReaderScript {
+	sc := C01ReaderScript{Ga: 1 + r.Intn(250), Gb: r.Intn(251)}
+	sc.N = Pick(r, bodySizes)
+	if r.Intn(3) == 0 {
+		sc.N = r.Intn(maxRandom)
+	}
+	alphabet := append([]int{0, 1, 7}, readSizes...)
+	for k, m := 0, r.Intn(7); k < m; k++ {
+		sc.Sizes = append(sc.Sizes, Pick(r, alphabet))
+	}
+	sc.Ending = Pick(r, C01Endings)
+	return sc
+}
+
+func (sc C01ReaderScript) Body() []byte { return C01GenBody(sc.N, sc.Ga, sc.Gb) }
+
+func (sc C01ReaderScript) Reader() *C01BodyReader {
+	return &C01BodyReader{Data: sc.Body(), Sizes: sc.Sizes, Ending: sc.Ending}
+}
+
+// Spec is the body as the Lean driver decodes it.
+func (sc C01ReaderScript) Spec() string { return fmt.Sprintf("gen.%d.%d.%d", sc.N, sc.Ga, sc.Gb) }
+
+func (sc C01ReaderScript) Honest() bool { return sc.Ending == "eof" || sc.Ending == "eofl" }
+
+func (sc C01ReaderScript) String() string {
+	return fmt.Sprintf("body=%d sizes=%v ending=%s", sc.N, sc.Sizes, sc.Ending)
+}
+
+// C01GenDeclared draws the declared content length for a reader that yields n bytes: -1 = none,
+// n = truthful, above n = the reader is under-long, below n (but ≥ 1) = the reader is over-long.
+// class is "none" / "exact" / "reader-short" / "reader-long".
+func C01GenDeclared(r *rand.Rand, n int) (int64, string) {
+	switch r.Intn(20) {
+	case 0, 1, 2, 3, 4, 5, 6:
+		if n > 0 {
+			return int64(n), "exact"
+		}
+	case 7, 8, 9:
+		return int64(n + Pick(r, []int{1, 2, 10, 1000, 20000})), "reader-short"
+	case 10, 11, 12:
+		if n >= 2 {
+			cl := n - Pick(r, []int{1, 1, 2, n / 2, n - 1})
+			if cl < 1 {
+				cl = 1
+			}
+			return int64(cl), "reader-long"
+		}
+	}
+	return -1, "none"
 }
